@@ -38,4 +38,38 @@ mod verif_witness_c11 {
         }
         assert_eq!(bad, 0, "{} positions whose evaluation is not negated by the colour flip", bad);
     }
+
+    /// mate distances: the side to move mating in k moves is `mate k`, being mated in k moves is `mate -k`, for either
+    /// colour and whatever the move number — values built from the rules of the score (mate = 2^24 minus the full-move
+    /// number of the mated position, seen from the mover), not from the code under test
+    #[test]
+    fn verif_witness_c11_mate_distance() {
+        use inkayaku_uci::Score;
+        let h = SimpleHeuristic {};
+        let mut bad = 0;
+        for white_to_move in [true, false] {
+            for f0 in [1i32, 37, 500] {
+                let fen = format!("4k3/8/8/8/8/8/8/4K2R {} - - 0 {}", if white_to_move { "w" } else { "b" }, f0);
+                let board = Bitboard::from_fen_string_unchecked(&fen);
+                for k in 1i32..=5 {
+                    // the mover mates in k: the mated position has the opponent to move; its full-move number
+                    let mated_full_when_mover_mates = if white_to_move { f0 + k - 1 } else { f0 + k };
+                    let v_mating = h.win_score() - mated_full_when_mover_mates;            // mover's point of view: positive
+                    // the mover is mated in k: the mated position has the mover to move again, k full moves later
+                    let v_mated = -(h.win_score() - (f0 + k));
+                    for (v, expect) in [(v_mating, k), (v_mated, -k)] {
+                        match h.score_from_value(v, &board) {
+                            Score::Mate { mate_in } if mate_in == expect => {}
+                            other => {
+                                if bad < 5 { println!("FAILING-INPUT: fen={:?} value {} (mate {} for the side to move) is reported as {:?}", fen, v, expect, other); }
+                                bad += 1;
+                            }
+                        }
+                    }
+                }
+            }
+        }
+        assert_eq!(bad, 0);
+    }
+
 }
